@@ -149,6 +149,9 @@ func byteSeq(v ssa.Value) (parts []ssa.Value, ok bool) {
 		if parts, ok := copySeq(x); ok {
 			return parts, true
 		}
+		if parts, ok := indexedSeq(x); ok {
+			return parts, true
+		}
 		return nil, false
 	case *ssa.Call:
 		if b, isB := x.Call.Value.(*ssa.Builtin); isB && b.Name() == "append" && len(x.Call.Args) == 2 {
@@ -633,4 +636,76 @@ func resetState(p *core.Program, ctrl, typ string) (val int64, pos token.Pos, ok
 		}
 	})
 	return val, pos, n == 1
+}
+
+// indexedSeq:  b := make([]byte, 2+len(v)); b[0] = tag; b[1] = n; copy(b[2:], v)  is the sequence [tag n v]: single bytes stored at
+// constant indices 0..k-1 followed by one copy at the constant offset k, all unconditional and each before the buffer is used.
+func indexedSeq(m *ssa.MakeSlice) ([]ssa.Value, bool) {
+	bytesAt := map[int64]ssa.Value{}
+	var tail ssa.Value
+	tailOff := int64(-1)
+	for _, r := range *m.Referrers() {
+		switch x := r.(type) {
+		case *ssa.DebugRef:
+		case *ssa.IndexAddr:
+			k, isK := core.ConstInt(x.Index)
+			if !isK {
+				return nil, false
+			}
+			for _, rr := range *x.Referrers() {
+				st, ok := rr.(*ssa.Store)
+				if !ok || st.Addr != ssa.Value(x) || cycleAvoiding(st, m) || !instrDominates(m, st) {
+					return nil, false
+				}
+				if _, dup := bytesAt[k]; dup {
+					return nil, false
+				}
+				bytesAt[k] = st.Val
+			}
+		case *ssa.Slice:
+			if x.High != nil || x.Max != nil || x.Low == nil {
+				continue // a view of the finished buffer
+			}
+			lo, isK := core.ConstInt(x.Low)
+			if !isK {
+				return nil, false
+			}
+			for _, rr := range *x.Referrers() {
+				c, ok := rr.(*ssa.Call)
+				if !ok {
+					continue
+				}
+				if b, isB := c.Call.Value.(*ssa.Builtin); isB && b.Name() == "copy" && c.Call.Args[0] == ssa.Value(x) {
+					if tail != nil || cycleAvoiding(c, m) || !instrDominates(m, c) {
+						return nil, false
+					}
+					tail, tailOff = c.Call.Args[1], lo
+				}
+			}
+		}
+	}
+	if tail == nil || int64(len(bytesAt)) != tailOff {
+		return nil, false
+	}
+	var parts []ssa.Value
+	for k := int64(0); k < tailOff; k++ {
+		v, ok := bytesAt[k]
+		if !ok {
+			return nil, false
+		}
+		parts = append(parts, v)
+	}
+	// the buffer is exactly prefix + tail long
+	okLen := false
+	if b, ok := core.StripConv(m.Len).(*ssa.BinOp); ok && b.Op == token.ADD {
+		for _, pr := range [][2]ssa.Value{{b.X, b.Y}, {b.Y, b.X}} {
+			if k, isK := core.ConstInt(pr[0]); isK && k == tailOff && isLenOfPiece(pr[1], tail) {
+				okLen = true
+			}
+		}
+	}
+	if !okLen {
+		return nil, false
+	}
+	return append(parts, tail), true
 }
